@@ -35,7 +35,7 @@ REP = {-1: ("'2.0'", "'3.0'"), 0: ("'2.0'", "'2.0'"), 1: ("'3.0'", "'2.0'")}
 
 def run(ctx):
     m = ctx.model
-    methods = m.methods(MOD, 'Version')
+    methods = m.methods(MOD, 'Version', 'flat')
     ctx.count('methods of Version', len(methods))
     _operators(ctx, methods)
     _cmp(ctx, methods)
